@@ -14,6 +14,7 @@ import random
 from hsverif.c14_harness import (
     component_name,
     gen_btree_cfg,
+    gen_burst_clients,
     gen_client_ops,
     gen_keys,
     gen_kv_cfg,
@@ -35,7 +36,10 @@ PID = "C14"
 LEVEL = "exploration"
 RULE = (
     "Generated client programs (2-6 concurrent clients, <=120 ops, 3-8 keys, unique values, think times of 0..4x the "
-    "engine's latencies in whole microseconds so that operations start inside flush / compaction / split latencies) "
+    "engine's latencies in whole microseconds so that operations start inside flush / compaction / split latencies; "
+    "40 % of histories add 1-3 bursts of 2-5 one-shot clients starting within 0-12 us of one instant, often the same "
+    "nanosecond; family lsm_big: memtables of 15-47 entries over 40-64 keys with 3-8 back-to-back writers, so that "
+    "SSTable sizes and flush durations differ) "
     "run inside a real Simulation against LSMTree (memtable 1-4 entries, 2-4 levels, size-tiered / leveled / FIFO "
     "thresholds 1-3, WAL on or off), BTree (order 3-5) and KVStore (no capacity); one-client programs mixing the "
     "generator API with put_sync/get_sync/delete_sync are compared with a dict exactly; transaction programs (2-5 "
@@ -78,6 +82,7 @@ def _scale(cfg: dict) -> float:
 
 
 MIX = {"put": 0.4, "get": 0.3, "delete": 0.14, "scan": 0.16}
+BURST_MIX = {"put": 0.6, "get": 0.15, "delete": 0.2, "scan": 0.05}
 
 
 def gen_concurrent(engine: str):
@@ -101,6 +106,8 @@ def gen_concurrent(engine: str):
                     "ops": gen_client_ops(rng, keys, n, scale, MIX, scans=cfg["engine"] != "kv"),
                 }
             )
+        if rng.random() < 0.4:
+            clients += gen_burst_clients(rng, keys, scale, BURST_MIX, scans=cfg["engine"] != "kv")
         return {"store": cfg, "keys": keys, "clients": clients}
 
     return gen
@@ -119,6 +126,32 @@ def _oracle_name(clause: str) -> str:
     return ("scan-" if scan else "") + base
 
 
+def gen_big(rng: random.Random, tier: str) -> dict:
+    """Memtables of 15-47 entries over 40-64 keys, 3-8 writers putting back to back: memtables overshoot their
+    threshold by the puts that arrive during the last insert's 10 us latency, so SSTable sizes (and therefore flush
+    durations, one page per 16 keys) differ between consecutive flushes."""
+    nk = rng.choice([40, 48, 64])
+    keys = [f"k{i:02d}" for i in range(nk)]
+    cfg = gen_lsm_cfg(rng, rng.choice(["size_tiered", "leveled"]), wal="maybe")
+    cfg["memtable_size"] = rng.choice([31, 31, 32, 47, 16, 15])
+    cfg["max_levels"] = rng.choice([3, 4])
+    if cfg["strategy"]["kind"] == "size_tiered":
+        cfg["strategy"]["min_sstables"] = rng.choice([3, 4, 6])
+    else:
+        cfg["strategy"].update(level_0_max=rng.choice([3, 4]), base_size_keys=rng.choice([16, 64]))
+    clients = []
+    for _ in range(rng.randint(3, 8)):
+        ops = []
+        for _ in range(rng.choice([20, 40, 60])):
+            think = rng.choice([0.0, 0.0, 0.0, 1e-6, 5e-6, 2e-5]) if rng.random() < 0.9 else rng.choice([0.0005, 0.002])
+            ops.append([think, rng.choices(["put", "get", "delete", "scan"], [0.72, 0.18, 0.06, 0.04])[0], rng.choice(keys)])
+            if ops[-1][1] == "scan":
+                a, b = sorted(rng.sample(keys, 2))
+                ops[-1] = [think, "scan", a, b]
+        clients.append({"start": rng.choice([0.0, 0.0, 1e-6, 5e-6, 0.0004]), "ops": ops})
+    return {"store": cfg, "keys": keys, "clients": clients}
+
+
 def _windows(times: list[int], width_ns: int) -> list[tuple[int, int]]:
     return [(t - width_ns, t) for t in times]
 
@@ -126,6 +159,8 @@ def _windows(times: list[int], width_ns: int) -> list[tuple[int, int]]:
 def _lsm_shape(read: dict, adm: list[dict], flush_w, comp_w) -> str:
     """Structural precondition of an inadmissible LSM read, most specific first.
 
+    0. a flush that began later was installed before an older one and before the read ended: the newer SSTable
+       sits below the older data (older immutable memtable, or older SSTable appended after it) - persistent;
     1. flush window: the read began while a flush was in progress AND some admissible write can have been
        in the memtable being flushed (its interval meets (start of previous flush, start of this flush]);
     2. two compactions overlapped in time before the read ended (their effect is persistent, so it is tested
@@ -135,6 +170,10 @@ def _lsm_shape(read: dict, adm: list[dict], flush_w, comp_w) -> str:
     """
     t0, t1 = read["t0"], read["t1"]
     fw = sorted(flush_w)
+    for i, (a, b) in enumerate(fw):
+        # a flush that began earlier but was installed later than another one (bigger SSTable, more pages)
+        if any(a < a2 and b2 < b and b2 <= t1 for a2, b2 in fw[i + 1 :]):
+            return "read-after-out-of-order-flush-completion"
     for i, (a, b) in enumerate(fw):
         if a <= t0 < b:
             prev = fw[i - 1][0] if i else float("-inf")
@@ -167,7 +206,8 @@ def check_history(case: dict, res: Result, store, hist, sampler):
     flush_w = comp_w = []
     if engine == "lsm":
         width = int(round(cfg["sstable_write_latency"] * 1e9))
-        flush_w = _windows(sampler.flushes, width)
+        # one page per 16 keys (max(1, key_count // 16)), key count from the public level summary
+        flush_w = [(t - width * max(1, n // 16), t) for t, n in zip(sampler.flushes, sampler.flush_keys)]
         comp_w = _windows(sampler.compactions, width)
 
     def shape_of(r, adm=()):
@@ -395,6 +435,7 @@ FAMILIES = {
     "lsm_size_tiered": Family("lsm_size_tiered", gen_concurrent("lsm_size_tiered"), run_concurrent, shrink=shrink_ops),
     "lsm_leveled": Family("lsm_leveled", gen_concurrent("lsm_leveled"), run_concurrent, shrink=shrink_ops),
     "lsm_fifo": Family("lsm_fifo", gen_concurrent("lsm_fifo"), run_concurrent, shrink=shrink_ops),
+    "lsm_big": Family("lsm_big", gen_big, run_concurrent, shrink=shrink_ops),
     "btree": Family("btree", gen_concurrent("btree"), run_concurrent, shrink=shrink_ops),
     "kv": Family("kv", gen_concurrent("kv"), run_concurrent, shrink=shrink_ops),
     "sequential": Family("sequential", gen_sequential, run_sequential, shrink=shrink_ops),
@@ -405,11 +446,12 @@ for _f in FAMILIES.values():
     _f.shard_size = 150
 
 BUDGET = {
-    "quick": {"lsm_size_tiered": 300, "lsm_leveled": 300, "lsm_fifo": 200, "btree": 250, "kv": 150, "sequential": 300, "txn": 600},
+    "quick": {"lsm_size_tiered": 300, "lsm_leveled": 300, "lsm_fifo": 200, "lsm_big": 200, "btree": 250, "kv": 150, "sequential": 300, "txn": 600},
     "thorough": {
         "lsm_size_tiered": 12000,
         "lsm_leveled": 12000,
         "lsm_fifo": 8000,
+        "lsm_big": 6000,
         "btree": 10000,
         "kv": 4000,
         "sequential": 10000,
